@@ -66,6 +66,50 @@ CLAIMED = {
              "key representations, index/path capacities from 0 to sufficient, polling past the end.",
         note="PARTIAL proof: exactness of rooted/limited enumeration rests on the correspondence + oracle run.",
         tech="Lean 4 model + (partial) theorems; correspondence and brute-force oracle"),
+
+    "C01": dict(
+        text="Lean 4 theorems on the value-level walk model (Model/Tree.lean: every container/wrapper/attribute, every runtime "
+             "state, every key source, arbitrary (de)serializer): a failing access other than a validator rejection leaves the "
+             "whole tree unchanged; reads never modify (mutual structural induction). Frame theorem for successful writes in "
+             "progress. Every run executes random read/write histories on every instance and compares whole-tree snapshots "
+             "(generated plain field access) with the Lean model and an independent Python reference interpreter.",
+        note="PARTIAL proof: 'exactly the designated leaf changes' for successful writes currently rests on the correspondence + "
+             "snapshot oracle. Accessors/validators must not alias other fields (generated ones own their storage).",
+        tech="Lean 4 proof by mutual structural induction over the nested tree + snapshot-based correspondence/oracle"),
+    "C02": dict(
+        text="Lean 4 theorems stating the per-node step order as equations of the walk (surplus keys before value access, closed "
+             "container first, key lookup before variant/deny/accessor, absent variant at the consumed key's depth, flatten adds "
+             "no depth); global walk = top-down reference walk theorem in progress. Every run compares serialize/deserialize/"
+             "ref_any/mut_any outcomes (kind, depth, message, log, snapshot) on every instance × node path × malformed key "
+             "alphabet × key representation with the model and the independent Python top-down interpreter (37k cases quick).",
+        note="PARTIAL proof (local step equations; the global depth-bookkeeping theorem is pending).",
+        tech="Lean 4 theorems over the hand-written walk model + three-way differential run (implementation, Lean model, Python oracle)"),
+    "C05": dict(
+        text="Lean 4 codec model (JSON text and postcard bytes for the leaf universe) with theorems for zig-zag bijection and "
+             "bool/unit JSON round trip; integer/option/array/string round-trip theorems in progress. Every run writes every "
+             "sample value to every leaf, reads it back with every buffer length 0..len+1, writes the read text back, and does "
+             "the same through postcard incl. short buffers and trailing bytes; floats bit-exact on the implementation only.",
+        note="PARTIAL proof. serde-json-core / postcard / ryu are modelled, not verified (trusted as validated by the "
+             "differential run); strings without JSON escapes.",
+        tech="Lean 4 codec model + (partial) round-trip theorems; exhaustive-over-corpus correspondence and oracle"),
+    "C12": dict(
+        text="Lean 4 theorems: validators never run on serialize/ref_any/mut_any (global, by induction over the tree); field-level "
+             "protocol as equations: deny stops with Access(0,msg) before any accessor, failing accessor is called once and "
+             "stops the walk, reads use get / writes use get_mut, validator runs only after Ok(depth), receives that depth and "
+             "may keep/replace/reject. Every run drives all single, pairwise and random gate combinations on every attributed "
+             "type and compares the real call log with model and Python oracle.",
+        note="Path-level ordering (top-down getters, bottom-up validators) follows from the recursive structure of the model and "
+             "is additionally checked by the run; a standalone ordering theorem is pending.",
+        tech="Lean 4 proof (structural induction + unfolding equations) + call-log correspondence/oracle"),
+    "C16": dict(
+        text="Lean 4 theorems: PathIter and JsonPathIter never slice off a char boundary for any string/separator; every shift "
+             "amount and subtraction in the generated packed.rs arithmetic is in range under the documented argument contract; "
+             "LSB conversions never reach unreachable!(); key width ≤ 63 for ≤ 2^63 children. Totality of the tree walk pending. "
+             "Every run feeds arbitrary strings/integers/words/chains/payloads/buffers to every instance and type under "
+             "catch_unwind (dev profile; release in the thorough tier).",
+        note="PARTIAL: panics inside third-party crates are only excluded by the runs. Open known finding F5 (node with > 2^63 "
+             "children × Packed) is reported as KNOWN-FINDING.",
+        tech="Lean 4 proofs for splitters and packed arithmetic + panic-catching correspondence run"),
 }
 
 PENDING = "not yet built in this framework (work in progress; see DESIGN.md §10 order of work)"
